@@ -1,7 +1,7 @@
 /-
   Driver.AesD — line-protocol handlers for crysp/aes.py (C02, C03): answers (model, spec).
     aes.enc x<key> x<block>          aes.dec x<key> x<block>          -> x<hex> | ERR
-    aes.rt  x<key> x<block>          -> enc;dec(enc);dec;enc(dec)     (round trips)
+    aes.rt  x<key> x<block>          -> enc;dec(enc);dec;enc(dec)     (round trips; model only — the property is the plugin's predicate)
     aes.gmul a b                     -> decimal | ERR
     aes.keyschedule x<key>           -> all Nb(Nr+1) words, concatenated
     aes.sbox / aes.sboxinv x<state>  (module functions Sbox / Sbox_inv)
@@ -81,11 +81,8 @@ def handle : Handler := fun op args =>
       let d := Aes.dec k b
       let ed := d >>= Aes.enc k
       let m := join4 (fmtEB e) (fmtEB de) (fmtEB d) (fmtEB ed)
-      let s :=
-        if keyOk k && b.length == 16 then
-          let se := Spec.Aes.cipher k b; let sd := Spec.Aes.invCipher k b
-          join4 (fmtBytes se) (fmtBytes (Spec.Aes.invCipher k se)) (fmtBytes sd) (fmtBytes (Spec.Aes.cipher k sd))
-        else join4 "ERR" "ERR" "ERR" "ERR"
+      -- no spec column: C03's property on this line is the round trip itself, evaluated on the implementation by the plugin
+      let s := "-"
       pure (m, s)
   | "aes.gmul", [a, b] => do
       let a ← parseNat? a; let b ← parseNat? b
